@@ -70,9 +70,14 @@ class IntegrateModel:
             raise AnalysisError("OdeSystem.integrate signature changed: %s" % self.params)
         # the target local: assigned from parameter t and from self.tf
         self.tf = None
+        tparam = self.params[1]
         for st in walk_no_nested(fn):
-            if isinstance(st, ast.Assign) and isinstance(st.targets[0], ast.Name) and isinstance(st.value, ast.Name) and st.value.id == "t":
-                self.tf = st.targets[0].id
+            if isinstance(st, ast.Assign) and isinstance(st.targets[0], ast.Name):
+                v = st.value
+                names = {n.id for n in ast.walk(v) if isinstance(n, ast.Name)}
+                # tf = t  (inside `if t is not None`)   or   tf = t if t is not None else self.tf   (either arrangement)
+                if (isinstance(v, ast.Name) and v.id == tparam) or (isinstance(v, ast.IfExp) and tparam in names and "self.tf" in src(v)):
+                    self.tf = st.targets[0].id
         if self.tf is None:
             raise AnalysisError("anchor missing: local bound to the call's target time in integrate")
         trys = [st for st in fn.body if isinstance(st, ast.Try)]
@@ -151,3 +156,44 @@ class IntegrateModel:
         if d == "prepare_events":
             return True
         return False
+
+
+    # ------------------------------------------------------------------------------------------
+    def final_step(self):
+        """The structure that chooses the step handed to the integrator.  Returns dict(step_name, clamp, free, cond, tracker, flag, flag_ok)
+        where ``cond`` is the boolean tree under which the clamp `tf - t[counter]` is taken (path condition, any branch arrangement)."""
+        from .sym import path_condition, equivalent, BoolTracker, Poly
+        c = self.canon
+        call = self.step_assign.value
+        kw = {k.arg: k.value for k in call.keywords}
+        step_arg = kw.get("timestep", call.args[4] if len(call.args) > 4 else None)
+        if not isinstance(step_arg, ast.Name):
+            return None
+        name = step_arg.id
+        defs = [st for st in walk_no_nested(self.loop) if isinstance(st, ast.Assign) and any(isinstance(t, ast.Name) and t.id == name for t in st.targets)]
+        want = Poly.atom(self.tf) - Poly.atom("self.__t[self.counter]")
+        clamp = [st for st in defs if c.poly(st.value) == want]
+        free = [st for st in defs if c.text(st.value) in ("self.dt", "self.__dt")]
+        out = dict(step_name=name, defs=defs, clamp=clamp[0] if len(clamp) == 1 else None, free=free[0] if len(free) == 1 else None)
+        if out["clamp"] is None or out["free"] is None or len(defs) != 2:
+            return out
+        bt = BoolTracker()
+        cond, _ = path_condition(out["clamp"], self.loop, bt)
+        cond_free, _ = path_condition(out["free"], self.loop, bt)
+        out["cond"], out["cond_free"], out["tracker"] = cond, cond_free, bt
+        ok, _ = equivalent(cond_free, ("not", [cond]))
+        out["complementary"] = ok
+        # flag: a name assigned True under cond and False under not cond
+        flag = None
+        flag_ok = False
+        for st in walk_no_nested(self.loop):
+            if isinstance(st, ast.Assign) and isinstance(st.value, ast.Constant) and st.value.value is True and isinstance(st.targets[0], ast.Name):
+                pc, _ = path_condition(st, self.loop, bt)
+                if equivalent(pc, cond)[0]:
+                    nm = st.targets[0].id
+                    fs = [s2 for s2 in walk_no_nested(self.loop) if isinstance(s2, ast.Assign) and isinstance(s2.targets[0], ast.Name) and s2.targets[0].id == nm
+                          and isinstance(s2.value, ast.Constant) and s2.value.value is False]
+                    if len(fs) == 1 and equivalent(path_condition(fs[0], self.loop, bt)[0], ("not", [cond]))[0]:
+                        flag, flag_ok = nm, True
+        out["flag"], out["flag_ok"] = flag, flag_ok
+        return out
